@@ -22,7 +22,7 @@ from harness.mesondrv import REPO, run_sub
 
 SHIM_DIR = os.path.join(os.path.dirname(os.path.abspath(__file__)), 'shim_c06')
 BUILD_DEF_NAMES = ('meson.build', 'meson.options', 'meson_options.txt', 'Cargo.toml', 'Cargo.lock')
-CORPUS_DIRS = ('common', 'unit', 'native', 'linuxlike', 'rust')
+CORPUS_DIRS = ('common', 'unit', 'native', 'linuxlike', 'rust', 'java')
 
 RECORDER = r'''#!/usr/bin/env python3
 # stand-in for a built program: records how it was started (C15 corpus check)
@@ -213,11 +213,10 @@ def check_corpus(case: dict, workdir: str, ev: T.Optional[Evidence], collect: T.
                     fail(f'{fname}/list-differs', f'`meson test --list` prints {len(lines)} entries, intro-{fname}.json has {len(names)}; '
                          f'lines without an intro entry: {unknown[:4]}')
             mine = [t for t in intro if t['cmd'] and os.path.realpath(t['cmd'][0]) in made]
-            if not mine:
-                continue
             shutil.rmtree(recdir, ignore_errors=True)
-            run_sub(['test', '--no-rebuild', '-C', bld, '--num-processes', '4', '-t', '0.2'] + (['--benchmark'] if kind == 'benchmark' else []),
-                    env={'VERIF_C15_RECDIR': recdir}, timeout=300)
+            if mine:      # (the depends relation below does not need a run)
+                run_sub(['test', '--no-rebuild', '-C', bld, '--num-processes', '4', '-t', '0.2'] + (['--benchmark'] if kind == 'benchmark' else []),
+                        env={'VERIF_C15_RECDIR': recdir}, timeout=300)
             recs = []
             if os.path.isdir(recdir):
                 for fn in sorted(os.listdir(recdir)):
